@@ -28,18 +28,22 @@ EA_TABLE = {
 OPERATIONS = ['REPLACE', 'DELETE', 'INSERT', 'SWAP', 'MOVE', 'replace', 'COPY', '', None]
 
 
+ENTRY = ['MosFile']
+
+
 def classify_under(root, mode):
     """Classify a tree (symbolic mode) or its serialisation (replay) under a warning filter.
     Returns ('ok', class name) or ('exc', exception)."""
     with warnings.catch_warnings():
         warnings.simplefilter(mode)
         try:
+            cls = getattr(mt, ENTRY[0])
             if B.Ctx.replay:
                 text = B.render(root)
                 B.Ctx.docs.append(text)
-                obj = mt.MosFile.from_string(text)
+                obj = cls.from_string(text)
             else:
-                obj = mt.MosFile._classify(root)
+                obj = cls._classify(root)
             return ('ok', type(obj).__name__)
         except Exception as e:
             return ('exc', e)
@@ -127,12 +131,18 @@ def free_tag_cell(P, A):
     WEAK[0] = bool(P.get('weak'))
     tag = A['tag']
     root = E('mos', T('mosID', 'm'), T('messageID', '7'), E(tag, T('roID', 'r')))
-    results = {m: classify_under(root, m) for m in ('ignore', 'error')}
+    ENTRY[0] = P.get('entry', 'MosFile')
+    try:
+        results = {m: classify_under(root, m) for m in ('ignore', 'error')}
+    finally:
+        ENTRY[0] = 'MosFile'
     B.hit()
     want = None
     for known in TAGS:
         if len(known) <= P['maxlen'] and tag == known:
             want = TAG_CLASS.get(known)
+    if P.get('entry') == 'ElementAction':
+        want = None      # the ElementAction entry point recognises roElementAction only (and this one has no source)
     sig = verdict(results, want)
     report(results, want, sig)
     return sig is None
